@@ -31,6 +31,7 @@ func (check) Assumptions() []string {
 // MemLimit: worker address-space limit. 2 GiB: a wire-sized allocation beyond that fails at once
 // (fatal out-of-memory, attributed) instead of being zero-filled and scanned for seconds.
 func (check) MemLimit() uint64 { return 2 << 30 }
+func (check) MaxWorkerDeaths() int { return 400 } // every wire-sized allocation / stack overflow witness kills its worker
 
 // HangConfirmSeconds: the known p2j loop is a pure infinite loop; re-confirming it in isolation for
 // 40 s (instead of 4 x 30 s) on every run keeps the quick tier inside its budget.
